@@ -129,6 +129,21 @@ PROPS = {
                      'log2 estimator is proved in a --no-default-features build. Serialization is undecided.'},
 }
 
+# C16 (panic freedom + termination) and C19 (word size) aggregate over every Verus unit registered for any property:
+# each Verus proof also proves absence of panics under the contract and termination; w32-capable units are
+# re-verified with Word = u32 (C19: quick tier = the kernel units, thorough tier = all of them).
+_all_verus = []
+for _p, _u in sorted(_UNITS.items()):
+    for _x in _u.get('verus', []):
+        if _x not in _all_verus and _x in VERUS:
+            _all_verus.append(_x)
+_UNITS.setdefault('C16', {}).setdefault('verus', [])
+_UNITS['C16']['verus'] = [x for x in _all_verus]
+_UNITS.setdefault('C19', {}).setdefault('verus', [])
+_UNITS['C19']['verus'] = [x for x in _all_verus if VERUS[x].get('w32')]
+_UNITS['C19']['verus_w32_quick'] = [x for x in ('int_prim', 'int_add', 'int_mul', 'int_mul_simple', 'int_shift',
+                                                 'int_div_word') if x in VERUS and VERUS[x].get('w32')]
+
 for _p, _u in _UNITS.items():
     if _p in PROPS:
         for _k, _v in _u.items():
